@@ -216,7 +216,7 @@ def run(chk):
                 scheds = scheds[:12]
             bs = rng.choice([2, 3])
             sizes = [(nb[i] - 1) * bs + rng.choice([1, bs]) for i in range(2)]
-            rows = [[[rng.randint(0, 7) for _ in range(L)] for _ in range(sizes[i] * runs)] for i in range(2)]
+            rows = [[[rng.randint(0, 9) for _ in range(L)] for _ in range(sizes[i] * runs)] for i in range(2)]     # gate: 2x+1 <= 19, whose square fits no 8-bit type
             fi = ci % len(frames)
             # expected per number of completed runs
             exp_idx = {}
@@ -229,7 +229,7 @@ def run(chk):
             for si, e in enumerate(scheds):
                 sched = e['sched']
                 prec = 'float64' if si % 2 else 'float32'
-                dtype = ['uint8', 'int16', 'float32'][si % 3]
+                dtype = ['uint8', 'int16', 'float32', 'int8'][si % 4]
                 label = f'NB={nb} runs={runs} fail=({fr},{ft},{fb}) schedule={"".join(k + str(i) for k, i in sched)} {prec}/{dtype}'
                 ctx = {'label': label, 'schedule': sched, 'nb': list(nb), 'runs': runs, 'fail': [fr, ft, fb], 'batch_size': bs, 'sizes': sizes, 'rows': rows, 'frame': fi, 'precision': prec, 'dtype': dtype}
                 scared.set_batch_size(bs)
@@ -336,7 +336,7 @@ def free_running(chk, rng, q):
     for k in range(n):
         L = 3
         n1, n2 = rng.randint(1, 14), rng.randint(1, 14)
-        rows = [[[rng.randint(0, 6) for _ in range(L)] for _ in range(n1)], [[rng.randint(0, 6) for _ in range(L)] for _ in range(n2)]]
+        rows = [[[rng.randint(0, 9) for _ in range(L)] for _ in range(n1)], [[rng.randint(0, 9) for _ in range(L)] for _ in range(n2)]]
         datasets.append({'a': apply_frame_pre(rows[0], [0, 1, 2]), 'b': apply_frame_pre(rows[1], [0, 1, 2])})
         metas.append((rows, rng.choice([1, 2, 3, 7, 50]), rng.choice([1, 2, 4, 16])))
     exps = expected(chk, datasets)
@@ -346,9 +346,10 @@ def free_running(chk, rng, q):
         prec = 'float64' if k % 2 else 'float32'
         an = scared.TTestAnalysis(precision=prec)
         gate = Gate(an, None, delays=0.003, rng=random.Random(k))
-        cont = build(an, rows[0], rows[1], 'int16', None, gate)
+        fdt = ['int16', 'uint8', 'int8'][k % 3]
+        cont = build(an, rows[0], rows[1], fdt, None, gate)
         an.run(cont)
-        ctx = {'label': f'free-running n=({len(rows[0])},{len(rows[1])}) batch={bs} threads={nt} {prec}', 'rows': rows, 'batch_size': bs, 'threads': nt, 'precision': prec}
+        ctx = {'label': f'free-running n=({len(rows[0])},{len(rows[1])}) batch={bs} threads={nt} {prec}/{fdt}', 'dtype': fdt, 'rows': rows, 'batch_size': bs, 'threads': nt, 'precision': prec}
         chk.count(('free', k), nontrivial=len(rows[0]) > bs or len(rows[1]) > bs)
         chk.traces_validated += 1
         compare_result(chk, an, exps[k], prec, ctx)
